@@ -10,28 +10,104 @@ import (
 	"github.com/codenotary/immudb/embedded/logger"
 	"github.com/codenotary/immudb/embedded/sql"
 	"github.com/codenotary/immudb/embedded/store"
+	"github.com/codenotary/immudb/pkg/api/schema"
+	"github.com/codenotary/immudb/pkg/database"
 )
+
+// backend: how a session reaches the SQL engine.  engineBackend calls sql.Engine directly;
+// dbBackend goes through pkg/database.DB (NewSQLTx / SQLExec / SQLQuery), the layer under both the
+// gRPC session transactions (pkg/server/sessions/internal/transactions) and the pgsql wire session.
+type backend interface {
+	newTx(ctx context.Context, ro bool) (*sql.SQLTx, error)
+	exec(ctx context.Context, tx *sql.SQLTx, q string) (*sql.SQLTx, []*sql.SQLTx, error)
+	query(ctx context.Context, tx *sql.SQLTx, q string) (sql.RowReader, error)
+	close()
+}
+
+type engineBackend struct {
+	st *store.ImmuStore
+	e  *sql.Engine
+}
+
+func txOpts(ro bool) *sql.TxOptions {
+	opts := sql.DefaultTxOptions().WithExplicitClose(true)
+	if ro {
+		opts = opts.WithReadOnly(true)
+	}
+	return opts
+}
+
+func (b *engineBackend) newTx(ctx context.Context, ro bool) (*sql.SQLTx, error) {
+	return b.e.NewTx(ctx, txOpts(ro))
+}
+func (b *engineBackend) exec(ctx context.Context, tx *sql.SQLTx, q string) (*sql.SQLTx, []*sql.SQLTx, error) {
+	return b.e.Exec(ctx, tx, q, nil)
+}
+func (b *engineBackend) query(ctx context.Context, tx *sql.SQLTx, q string) (sql.RowReader, error) {
+	return b.e.Query(ctx, tx, q, nil)
+}
+func (b *engineBackend) close() { b.st.Close() }
+
+type dbBackend struct{ db database.DB }
+
+func (b *dbBackend) newTx(ctx context.Context, ro bool) (*sql.SQLTx, error) {
+	return b.db.NewSQLTx(ctx, txOpts(ro))
+}
+func (b *dbBackend) exec(ctx context.Context, tx *sql.SQLTx, q string) (*sql.SQLTx, []*sql.SQLTx, error) {
+	return b.db.SQLExec(ctx, tx, &schema.SQLExecRequest{Sql: q})
+}
+func (b *dbBackend) query(ctx context.Context, tx *sql.SQLTx, q string) (sql.RowReader, error) {
+	return b.db.SQLQuery(ctx, tx, &schema.SQLQueryRequest{Sql: q})
+}
+func (b *dbBackend) close() { b.db.Close() }
 
 // engineRun: one real sql.Engine over one real store, and up to three sessions, each holding at
 // most one explicit transaction the way pkg/server/sessions/internal/transactions and the pgsql
 // session do (`s.tx, _, err = Exec(ctx, s.tx, stmt)`).
 type engineRun struct {
 	dir    string
-	st     *store.ImmuStore
-	e      *sql.Engine
+	b      backend
 	ctx    context.Context
 	tx     [3]*sql.SQLTx
 	leaked []*sql.SQLTx
 	extra  []string // anomalies outside the observation record (reported as findings)
 }
 
-func newEngineRun() (*engineRun, error) {
-	dir, err := os.MkdirTemp("", "vh-c13-")
+const createTables = "CREATE TABLE ta (id INTEGER, v INTEGER, PRIMARY KEY id);" +
+	"CREATE TABLE tb (id INTEGER AUTO_INCREMENT, v INTEGER, PRIMARY KEY id);" +
+	"CREATE TABLE tc (id INTEGER, v INTEGER, PRIMARY KEY id);"
+
+// a fresh store and engine in a temp dir
+// tempBase: a memory-backed temp directory when the platform has one (a store per program is
+// created and removed; on disk this dominates the run time), else the default temp directory
+func tempBase() string {
+	if fi, err := os.Stat("/dev/shm"); err == nil && fi.IsDir() {
+		if d, err := os.MkdirTemp("/dev/shm", "vh-c13-probe-"); err == nil {
+			os.RemoveAll(d)
+			return "/dev/shm"
+		}
+	}
+	return ""
+}
+
+var tmpBase = tempBase()
+
+func newEngineRun(viaDatabase bool) (*engineRun, error) {
+	dir, err := os.MkdirTemp(tmpBase, "vh-c13-")
 	if err != nil {
 		return nil, err
 	}
-	st, err := store.Open(dir, store.DefaultOptions().WithMultiIndexing(true).WithSynced(false).
-		WithLogger(logger.NewSimpleLoggerWithLevel("vh", io.Discard, logger.LogError)))
+	log := logger.NewSimpleLoggerWithLevel("vh", io.Discard, logger.LogError)
+	stOpts := store.DefaultOptions().WithMultiIndexing(true).WithSynced(false).WithLogger(log)
+	if viaDatabase {
+		db, err := database.NewDB("vhdb", nil, database.DefaultOptions().WithDBRootPath(dir).WithStoreOptions(stOpts), log)
+		if err != nil {
+			os.RemoveAll(dir)
+			return nil, err
+		}
+		return &engineRun{dir: dir, b: &dbBackend{db}, ctx: context.Background()}, nil
+	}
+	st, err := store.Open(dir, stOpts)
 	if err != nil {
 		os.RemoveAll(dir)
 		return nil, err
@@ -42,41 +118,45 @@ func newEngineRun() (*engineRun, error) {
 		os.RemoveAll(dir)
 		return nil, err
 	}
-	er := &engineRun{dir: dir, st: st, e: e, ctx: context.Background()}
-	_, _, err = e.Exec(er.ctx, nil,
-		"CREATE TABLE ta (id INTEGER, v INTEGER, PRIMARY KEY id);"+
-			"CREATE TABLE tb (id INTEGER AUTO_INCREMENT, v INTEGER, PRIMARY KEY id);"+
-			"CREATE TABLE tc (id INTEGER, v INTEGER, PRIMARY KEY id);", nil)
-	if err != nil {
-		er.close()
-		return nil, err
-	}
-	// warm the catalog cache (a read-only NewTx populates it), so that every NewTx of the
-	// program takes the cached-catalog path
-	if _, err := er.readDB(); err != nil {
-		er.close()
-		return nil, err
-	}
-	return er, nil
+	return &engineRun{dir: dir, b: &engineBackend{st, e}, ctx: context.Background()}, nil
 }
 
-func (er *engineRun) close() {
+// begin a program: the three (empty) tables are created and the catalog cache is warmed (a
+// read-only NewTx populates it), so that every NewTx of the program takes the cached-catalog path
+func (er *engineRun) beginProgram() error {
+	er.tx = [3]*sql.SQLTx{}
+	er.leaked = nil
+	er.extra = nil
+	if _, _, err := er.b.exec(er.ctx, nil, createTables); err != nil {
+		return err
+	}
+	_, err := er.readDB()
+	return err
+}
+
+func (er *engineRun) cancelAll() {
 	for i := range er.tx {
 		if er.tx[i] != nil && !er.tx[i].Closed() {
 			er.tx[i].Cancel()
 		}
+		er.tx[i] = nil
 	}
 	for _, tx := range er.leaked {
 		if !tx.Closed() {
 			tx.Cancel()
 		}
 	}
-	er.st.Close()
+	er.leaked = nil
+}
+
+func (er *engineRun) close() {
+	er.cancelAll()
+	er.b.close()
 	os.RemoveAll(er.dir)
 }
 
 func (er *engineRun) query(tx *sql.SQLTx, q string) ([][2]int64, error) {
-	r, err := er.e.Query(er.ctx, tx, q, nil)
+	r, err := er.b.query(er.ctx, tx, q)
 	if err != nil {
 		return nil, err
 	}
@@ -152,12 +232,8 @@ func (er *engineRun) step(st Step) (Obs, error) {
 		if old != nil {
 			err = fmt.Errorf("harness: session already holds a transaction")
 		} else {
-			opts := sql.DefaultTxOptions().WithExplicitClose(true)
-			if op.K == KBeginRO {
-				opts = opts.WithReadOnly(true)
-			}
 			var tx *sql.SQLTx
-			tx, err = er.e.NewTx(er.ctx, opts)
+			tx, err = er.b.newTx(er.ctx, op.K == KBeginRO)
 			if err == nil {
 				er.tx[s] = tx
 			}
@@ -178,7 +254,7 @@ func (er *engineRun) step(st Step) (Obs, error) {
 			er.tx[s] = nil
 		}
 	default:
-		ntx, ctxs, xerr := er.e.Exec(er.ctx, old, op.SQL(), nil)
+		ntx, ctxs, xerr := er.b.exec(er.ctx, old, op.SQL())
 		err = xerr
 		er.tx[s] = ntx
 		if len(ctxs) > 1 {
@@ -212,13 +288,17 @@ func (er *engineRun) step(st Step) (Obs, error) {
 	return o, nil
 }
 
-// runProgram executes the program on a fresh engine and returns what was observed.
-func runProgram(steps []Step) ([]Obs, []string, error) {
-	er, err := newEngineRun()
+// runProgram executes the program on a fresh store (directly on sql.Engine, or through
+// pkg/database.DB) and returns what was observed.
+func runProgram(steps []Step, viaDatabase bool) ([]Obs, []string, error) {
+	er, err := newEngineRun(viaDatabase)
 	if err != nil {
 		return nil, nil, err
 	}
 	defer er.close()
+	if err := er.beginProgram(); err != nil {
+		return nil, nil, err
+	}
 	obs := make([]Obs, 0, len(steps))
 	for _, st := range steps {
 		o, err := er.step(st)
